@@ -290,6 +290,9 @@ def Did (rm : Bool) (H : Hooks) (log : List Item) (r : Tr) : Prop :=
 theorem Did.refl (rm : Bool) (H : Hooks) (log : List Item) (e : Option Exc) (hw : WF H) : Did rm H log (H, log, e) :=
   ⟨[], rfl, fun o q => ⟨fun _ => by simp [cntItems_nil], fun _ => by simp [cntItems_nil]⟩, hw⟩
 
+theorem Did.wf {rm : Bool} {H : Hooks} {log : List Item} {r : Tr} (h : Did rm H log r) : WF r.1 := by
+  obtain ⟨_, _, _, w⟩ := h; exact w
+
 theorem Did.trans {rm : Bool} {H : Hooks} {log : List Item} {r1 r2 : Tr} (h1 : Did rm H log r1)
     (h2 : Did rm r1.1 r1.2.1 r2) : Did rm H log r2 := by
   obtain ⟨n1, e1, c1, _⟩ := h1
@@ -315,14 +318,14 @@ theorem applyOwn_did (rm : Bool) (its : List Item) (H : Hooks) (done : List Item
       | ok H' =>
         have hc := cnt_removeItem hr
         have step : Did true H done (H', it :: done, none) :=
-          ⟨[it], rfl, fun o q => ⟨fun _ => by have := hc o q; rw [cntItems_cons, cntItems_nil]; omega,
-            fun h => by cases h⟩, WF_removeItem hw hr⟩
+          ⟨[it], rfl, fun o q => ⟨fun _ => (by have := hc o q; rw [cntItems_cons, cntItems_nil]; omega),
+            fun h => (by cases h)⟩, WF_removeItem hw hr⟩
         exact Did.trans step (ih H' (it :: done) (WF_removeItem hw hr))
     | false =>
       simp only [applyOwn, Bool.false_eq_true, if_false]
       have step : Did false H done (addItem it H, it :: done, none) :=
-        ⟨[it], rfl, fun o q => ⟨fun h => by cases h,
-          fun _ => by rw [cnt_addItem, cntItems_cons, cntItems_nil]; omega⟩, WF_addItem it H hw⟩
+        ⟨[it], rfl, fun o q => ⟨fun h => (by cases h),
+          fun _ => (by rw [cnt_addItem, cntItems_cons, cntItems_nil]; omega)⟩, WF_addItem it H hw⟩
       exact Did.trans step (ih _ _ (WF_addItem it H hw))
 
 theorem notifStep_did (h : Heap) (k : HKey) (rm : Bool) (ob : Observer) (x : W) (H : Hooks) (done : List Item)
@@ -358,7 +361,7 @@ theorem foldW_did (rm : Bool) (f : W → Hooks → List Item → Tr)
     have h1 := hf y H log hw
     split
     · exact h1
-    · exact Did.trans h1 (ih _ _ h1.2.2.2)
+    · exact Did.trans h1 (ih _ _ h1.wf)
 
 theorem walk_rm_unfold (h : Heap) (k : HKey) (extra : Bool) (ob : Observer) (cs : List Graph) (x : W) (H : Hooks)
     (log : List Item) :
@@ -414,7 +417,7 @@ theorem walk_did (h : Heap) (k : HKey) : ∀ g : Graph, ∀ (rm extra : Bool) (x
           foldW_did rm _ (fun y H' log' hw' => ih c (hsub c (List.mem_cons_self ..)) rm true y H' log' hw') ys H log hw
         split
         · exact h1
-        · exact Did.trans h1 (ihc (fun c' hc' => hsub c' (List.mem_cons_of_mem _ hc')) _ _ h1.2.2.2)
+        · exact Did.trans h1 (ihc (fun c' hc' => hsub c' (List.mem_cons_of_mem _ hc')) _ _ h1.wf)
   cases rm with
   | true =>
     rw [walk_rm_unfold]
@@ -425,27 +428,27 @@ theorem walk_did (h : Heap) (k : HKey) : ∀ g : Graph, ∀ (rm extra : Bool) (x
     simp only []
     split
     · exact r1
-    · have r2 := Did.trans r1 (hCs true cs (fun c hc => hc) _ _ r1.2.2.2)
+    · have r2 := Did.trans r1 (hCs true cs (fun c hc => hc) _ _ r1.wf)
       split
       · exact r2
-      · have r3 := Did.trans r2 (maintStep_did h k true ob cs x _ _ r2.2.2.2)
+      · have r3 := Did.trans r2 (maintStep_did h k true ob cs x _ _ r2.wf)
         split
         · exact r3
-        · exact Did.trans r3 (notifStep_did h k true ob x _ _ r3.2.2.2)
+        · exact Did.trans r3 (notifStep_did h k true ob x _ _ r3.wf)
   | false =>
     rw [walk_add_unfold]
     have s1 := notifStep_did h k false ob x H log hw
     simp only []
     split
     · exact s1
-    · have s2 := Did.trans s1 (maintStep_did h k false ob cs x _ _ s1.2.2.2)
+    · have s2 := Did.trans s1 (maintStep_did h k false ob cs x _ _ s1.wf)
       split
       · exact s2
-      · have r3 := Did.trans s2 (hCs false cs (fun c hc => hc) _ _ s2.2.2.2)
+      · have r3 := Did.trans s2 (hCs false cs (fun c hc => hc) _ _ s2.wf)
         split
         · exact r3
         · split
-          · exact Did.trans r3 (extraStepW_did h k false _ x _ _ r3.2.2.2)
+          · exact Did.trans r3 (extraStepW_did h k false _ x _ _ r3.wf)
           · exact r3
 
 theorem applyObserversW_did (h : Heap) (k : HKey) (rm : Bool) (x : W) (gs : List Graph) (H : Hooks)
@@ -457,7 +460,7 @@ theorem applyObserversW_did (h : Heap) (k : HKey) (rm : Bool) (x : W) (gs : List
     have h1 := walk_did h k g rm true x H log hw
     split
     · exact h1
-    · exact Did.trans h1 (ih _ _ h1.2.2.2)
+    · exact Did.trans h1 (ih _ _ h1.wf)
 
 /-- The owner's roll-back restores every count. -/
 theorem finish_atomic (rm : Bool) (H : Hooks) (r : Tr) (hd : Did rm H [] r) (he : r.2.2 ≠ none) :
